@@ -84,6 +84,8 @@ func touchesPeerData(f *ssa.Function) string {
 }
 
 func checkC15(p *load.Program, r *kit.Report) {
+	r.Rule("NO-SELF-RECURSION", "no function of the two packages calls itself on every path (an Error()/String() method that formats its own receiver): the stack overflow aborts the process and no recover contains it", 1)
+	checkNoUnconditionalSelfCall(p, r, "NO-SELF-RECURSION")
 	importRules(p, r, "C13", "Run returns only after Stop closed the connection: Stop must never wait for a writer that is blocked on the peer", 1, nil, "NO-IO-UNDER-LOCK")
 	importRules(p, r, "C06", "a map written without its write lock while other goroutines use it aborts the process (fatal error: concurrent map writes), which no recover contains", 1,
 		func(o *kit.Obligation) bool {
